@@ -50,7 +50,7 @@ PURE = [
     "biotite.structure.box:repeat_box_coord",
     "biotite.structure.box:move_inside_box",
 ]
-REQUIRED_ORACLES = [
+REQUIRED_ORACLES = ["empty_query_empty_answer", 
     "get_atoms_exact", "mask_equals_index", "radii_array_exact", "single_query_exact",
     "cells_superset", "adjacency_equals_threshold", "adjacency_symmetric",
     "periodic_min_image", "nonfinite_query_empty", "result_form", "large_ratio_no_crash",
@@ -129,6 +129,24 @@ def _quiet(fn, *a, **k):
         warnings.simplefilter("ignore")
         with np.errstate(all="ignore"):
             return fn(*a, **k)
+
+
+
+
+def check_empty_queries(ctx, cl):
+    """A query batch without any point (both an empty (0,3) array and an empty 1-D array) has an empty answer."""
+    ctx.oracle("empty_query_empty_answer")
+    for q in (np.zeros((0, 3)), np.array([])):
+        for name, arg in (("get_atoms", 1.0), ("get_atoms_in_cells", 1)):
+            ctx.op("%s[empty query %s]" % (name, q.shape))
+            try:
+                r = getattr(cl, name)(q, arg)
+            except Exception as e:
+                ctx.fail("empty_query_empty_answer", "%s(query of shape %s) raised %s: %s" % (name, q.shape, type(e).__name__, e))
+            if np.size(r) != 0:
+                ctx.fail("empty_query_empty_answer", "%s(query of shape %s) returned %d entries" % (name, q.shape, np.size(r)))
+
+
 
 
 LAST_DECOY = [False]
@@ -935,6 +953,8 @@ def case_periodic(rng, ctx, triclinic):
     if built is None:
         return
     cl, arr = built
+    if ctx.index % 5 == 0:
+        check_empty_queries(ctx, cl)
     if arr is not None and not LAST_DECOY[0]:
         box_act = arr.box.astype(np.float64)
     w = World(P_act, cs, sel, box=box_act, box_is_f32=box_f32)
@@ -1026,6 +1046,8 @@ def case_adjacency(rng, ctx):
         if built is None:
             return
         cl, arr = built
+        if ctx.index % 5 == 0:
+            check_empty_queries(ctx, cl)
         if arr is not None and periodic and not LAST_DECOY[0]:
             box_act = arr.box.astype(np.float64)
         w = World(P_act, cs, sel, box=box_act, box_is_f32=(periodic and form == "atomarray"))
